@@ -1,10 +1,11 @@
 \* non-vacuity: the pinned bracket trimming (s[1:len(s)-2], D8) must violate C18Inv
 SPECIFICATION Spec
 CONSTANTS
-  Schemes = {"udp", "tcp", "tcp+pipeline", "tls", "tls+pipeline", "https", "h3", "quic"}
-  Ports = {1, 53, 443, 853, 5353, 65535}
+  Schemes = {"udp", "tcp", "tcp+pipeline", "tls", "tls+pipeline", "https", "h3", "quic", "doq"}
+  Ports = {1, 53, 443, 853, 65535, 65589, 70000}
   TrimCut = 2
   DialPortRule = "url"
+  PortCheck = TRUE
   Export = FALSE
 INVARIANTS C18Inv
 CHECK_DEADLOCK FALSE
